@@ -188,8 +188,24 @@ def rdac(ctx):
                 try:
                     stored.add(repo.fold_expr(n.value, fi.module, rci))
                 except Unfoldable:
-                    raise AnalysisError(f"{fi.qualname}: non-constant step value")
-    ctx.ob("rdac/handlers-exist", rci.qualname, stored <= set(steps), f"stored step values {sorted(stored)}, handlers {steps}", rci.loc)
+                    # the value is a parameter of a helper (`advance(address, next_step)`): the constants its call sites pass
+                    names = {x.id for x in ast.walk(n.value) if isinstance(x, ast.Name)} & set(fi.params)
+                    if len(names) != 1:
+                        stored.add(None)
+                        continue
+                    pidx = fi.params.index(next(iter(names)))
+                    for g in rci.methods.values():
+                        for c in ast.walk(g.node):
+                            if isinstance(c, ast.Call) and isinstance(c.func, ast.Attribute) and c.func.attr == fi.name:
+                                arg = c.args[pidx - 1] if len(c.args) >= pidx else next((k.value for k in c.keywords if k.arg == fi.params[pidx]), None)
+                                try:
+                                    stored.add(repo.fold_expr(arg, g.module, rci) if arg is not None else None)
+                                except Unfoldable:
+                                    stored.add(None)
+    if None in stored:
+        ctx.info(f"{rci.qualname}: some stored step values are not constants of the source; the handler-existence cross-check is skipped (every step handler is analysed below)")
+    else:
+        ctx.ob("rdac/handlers-exist", rci.qualname, stored <= set(steps), f"stored step values {sorted(stored)}, handlers {steps}", rci.loc)
     step0_req = repo.class_const(rci, "STEP0_REQUEST")
     for s in [None] + steps:
         for shape in ("reset", "data"):
@@ -228,7 +244,7 @@ def rdac(ctx):
                 ok_own = stepd.get(B[0]) == 5 and set(stepd) <= {A[0], B[0]}
                 if not ok_own:
                     ctx.ob("rdac/own-key", key, False, f"step dictionary after the call: {stepd}", dr.loc)
-                matched = any(":eqseq" in l for l in taken)
+                matched = any(":eqseq" in l for l in taken) or constrains_data(I, st)
                 if shape == "reset":
                     if s0 != 14:
                         ok = s1 == 1 and len(sd) == 1 and dest(sd[0]) == A and payload(sd[0]) == step0_req and not cbs
@@ -261,6 +277,48 @@ def rdac(ctx):
                     ctx.ob("rdac/completion-once", key, cb_ok, f"{len(cbs)} callback(s) on {s0} -> {s1} (expected {want_cb})", dr.loc)
                 if ok_own and shape == "data" and matched:
                     ctx.ob("rdac/own-key", key, True, "other peer's step untouched", dr.loc)
+
+
+def constrains_data(I, st, name="d") -> bool:
+    """does the path carry a POSITIVE condition on the datagram's octets (an equality with a constant, in whatever way the handler
+    spells the comparison)?  Linear equalities fix atoms of the datagram in the path's system; sequence equalities assumed true
+    mention them.  Disequalities (comparisons that failed) do not count."""
+    names = I.atoms.names
+    for pivot in st.lin.rows:
+        nm = names[pivot]
+        if isinstance(nm, tuple) and nm[0] == name:
+            return True
+    def has_d(x, depth=0):
+        if isinstance(x, F):
+            return any(isinstance(names[a], tuple) and names[a][0] == name for a in x.atoms())
+        if isinstance(x, ABits):
+            return any(has_d(y, depth + 1) for y in x.items)
+        if isinstance(x, AInt):
+            return any(has_d(y, depth + 1) for y in x.bits)
+        if isinstance(x, (tuple, list)) and depth < 6:
+            return any(has_d(y, depth + 1) for y in x)
+        return False
+    def parts_of(x):
+        return x.parts if isinstance(x, ACond) else x
+
+    def positive(kind, parts, value, depth=0):
+        """is `kind(parts) == value` a positive condition on the datagram?"""
+        if depth > 4:
+            return False
+        if kind == "not":
+            inner = [p for p in (parts if isinstance(parts, (tuple, list)) else [parts]) if isinstance(p, ACond)]
+            return any(positive(i.kind, i.parts, not value, depth + 1) for i in inner)
+        if kind.startswith("eq") and value is True:
+            return has_d(_thaw(parts))
+        return False
+
+    def _thaw(parts, depth=0):
+        # frozen keys hold ("ABits", kind, (forms...)) / ("AInt", (forms...), ext) tuples: has_d walks tuples anyway
+        return parts
+    for k, v in st.conds.items():
+        if isinstance(k, tuple) and k and isinstance(k[0], str) and positive(k[0], k[1] if len(k) > 1 else (), v):
+            return True
+    return False
 
 
 def single_writer(ctx):
